@@ -52,6 +52,8 @@ m('c10_skip_remaining', 'C10', S, "                except Exception as e:\n     
 # ---- C11
 m('c11_escape', 'C11', S, "                except Exception as e:\n                    # Error already logged and recorded in execute_handler\n                    logger.debug(", "                except KeyError as e:\n                    # Error already logged and recorded in execute_handler\n                    logger.debug(", 'only KeyError swallowed in serial execution')
 m('c11_wrap_error', 'C11', S, "            event.event_result_update(handler=handler, eventbus=self, error=e)\n\n            red", "            event.event_result_update(handler=handler, eventbus=self, error=RuntimeError(str(e)) if isinstance(e, ZeroDivisionError) else e)\n\n            red", 'one exception type is re-wrapped (identity lost)')
+m('c11_revert_f30', 'C11', S, "            if current_task is not None and not current_task.cancelling():\n                # Nobody cancelled this task", "            if False:\n                # Nobody cancelled this task", 'revert F30: handler-raised CancelledError taken for a bus cancellation')
+m('c03_revert_f31', 'C03', S, "        assert self.name.isidentifier() and not self.name.startswith('_'), (", "        assert self.name.isidentifier(), (", 'revert F31: underscore bus names accepted')
 # ---- C12
 m('c12_revert_f12', 'C12', MO, "                        if isinstance(self.result_type, type) and issubclass(self.result_type, BaseModel):", "                        if issubclass(self.result_type, BaseModel):", 'revert F12')
 m('c12_accessor_order', 'C12', MO, "        results = list(valid_results.values())\n        return cast(T_EventResultType | None, results[0].result) if results else None", "        results = list(valid_results.values())\n        return cast(T_EventResultType | None, results[-1].result) if results else None", 'event_result returns the LAST result')
